@@ -117,10 +117,16 @@ type mgrOut struct {
 	Hosts []string
 }
 
+var mgrSerial int
+
 func (s *mgrSwitch) toSwitchover(now time.Time) Switchover {
-	sw := Switchover{From: s.From, To: s.To, Cause: s.Cause, MasterTransition: MasterTransition(s.Transition), InitiatedBy: "operator", RunCount: s.RunCount}
+	mgrSerial++ // every filed request is a different request, even with equal fields
+	sw := Switchover{From: s.From, To: s.To, Cause: s.Cause, MasterTransition: MasterTransition(s.Transition), InitiatedBy: fmt.Sprintf("operator#%d", mgrSerial), RunCount: s.RunCount}
 	if s.InitiatedAgo >= 0 {
 		sw.InitiatedAt = now.Add(-time.Duration(s.InitiatedAgo) * time.Second)
+		if sw.InitiatedAt.UnixNano() == vEpoch {
+			sw.InitiatedAt = sw.InitiatedAt.Add(time.Second) // 0 relative to the epoch means "unset" in the model
+		}
 	}
 	if s.Failed {
 		sw.Result = &SwitchoverResult{Ok: false, Error: "earlier attempt failed", FinishedAt: now.Add(-time.Second)}
